@@ -47,6 +47,9 @@ REVERTS = [
     ('revert-F9-delta-longval', ['C03', 'C11'], 'fastparquet/core.py',
      "                encoding.NumpyIO(assign[num:num+data_header2.num_values].view('uint8')),\n                longval=longval\n",
      "                encoding.NumpyIO(assign[num:num+data_header2.num_values].view('uint8'))\n"),
+    ('revert-F10-level-bound-is-value-count', ['C03', 'C11'], 'fastparquet/core.py',
+     "        encoding.read_rle_bit_packed_hybrid(io_obj, bit_width, data_header2.definition_levels_byte_length,\n",
+     "        encoding.read_rle_bit_packed_hybrid(io_obj, bit_width, data_header2.num_values,\n"),
 ]
 
 # functions whose twins are run per property (module, qualname)
